@@ -124,7 +124,12 @@ theorem lookup_append_new {β : Type} (s s' : Nat) (v : β) : ∀ (acc : List (N
     (acc ++ [(s, v)]).lookup s' = if s' = s then some v else acc.lookup s' := by
   intro acc
   induction acc with
-  | nil => intro _; by_cases hs : s' = s <;> simp [List.lookup_cons, hs]
+  | nil =>
+    intro _
+    by_cases hs : s' = s
+    · simp [List.lookup_cons, hs]
+    · have h1 : (s' == s) = false := by simpa using hs
+      simp [List.lookup_cons, hs, h1]
   | cons kv rest ih =>
     intro h
     obtain ⟨k, x⟩ := kv
@@ -191,5 +196,172 @@ theorem foldSpans_lookup (m : List (Nat × Nat)) : ∀ (items : List SItem) (acc
           simp [List.filter_cons, hsrc, hl, hullFold]
         · have : ¬ (some s0 = some s) := by simpa using fun h => hs h.symm
           simp [List.filter_cons, hsrc, hs, this]
+
+theorem mem_of_lookup {β : Type} (s : Nat) (v : β) : ∀ (acc : List (Nat × β)), acc.lookup s = some v → (s, v) ∈ acc := by
+  intro acc
+  induction acc with
+  | nil => intro h; simp at h
+  | cons kv rest ih =>
+    intro h
+    obtain ⟨k, x⟩ := kv
+    by_cases hk : s = k
+    · subst hk
+      simp only [List.lookup_cons, BEq.rfl, Option.some.injEq] at h
+      subst h; exact List.mem_cons_self
+    · have h1 : (s == k) = false := by simpa using hk
+      simp only [List.lookup_cons, h1] at h
+      exact List.mem_cons_of_mem _ (ih h)
+
+theorem lookup_of_mem {β : Type} (s : Nat) (v : β) : ∀ (acc : List (Nat × β)), (acc.map (·.1)).Nodup → (s, v) ∈ acc →
+    acc.lookup s = some v := by
+  intro acc
+  induction acc with
+  | nil => intro _ h; simp at h
+  | cons kv rest ih =>
+    intro hnd h
+    obtain ⟨k, x⟩ := kv
+    simp only [List.map_cons, List.nodup_cons] at hnd
+    rcases List.mem_cons.1 h with heq | h'
+    · cases heq; simp [List.lookup_cons]
+    · have hk : s ≠ k := by
+        intro e; subst e
+        exact hnd.1 (List.mem_map.2 ⟨(s, v), h', rfl⟩)
+      have h1 : (s == k) = false := by simpa using hk
+      simp only [List.lookup_cons, h1]
+      exact ih hnd.2 h'
+
+end QV.C25
+
+namespace QV.C25
+open QV.Sched
+
+/-! the source map: `firstIndices` and the `range(..=idx).next_back()` lookup -/
+
+/-- one step of the fold inside `sourceOf` -/
+def srcStep (idx : Nat) (best : Option (Nat × Nat)) (kv : Nat × Nat) : Option (Nat × Nat) :=
+  if kv.1 ≤ idx then
+    match best with
+    | some b => if b.1 ≤ kv.1 then some kv else some b
+    | none => some kv
+  else best
+
+theorem sourceOf_eq (m : List (Nat × Nat)) (idx : Nat) :
+    sourceOf m idx = (m.foldl (srcStep idx) none).map (·.2) := rfl
+
+/-- entries whose key exceeds `idx` are ignored -/
+theorem fold_skip (idx : Nat) : ∀ (lens : List Nat) (s acc : Nat) (best : Option (Nat × Nat)), idx < acc →
+    (firstIndices lens s acc).foldl (srcStep idx) best = best := by
+  intro lens
+  induction lens with
+  | nil => intro s acc best _; rfl
+  | cons len rest ih =>
+    intro s acc best h
+    simp only [firstIndices, List.foldl_cons]
+    have : srcStep idx best (acc, s) = best := by
+      simp only [srcStep]
+      rw [if_neg (by omega)]
+    rw [this]
+    exact ih (s + 1) (acc + len) best (by omega)
+
+/-- if `idx` lies in the interval of source `j`, the lookup returns `j` -/
+theorem fold_hit (idx : Nat) : ∀ (lens : List Nat) (s acc : Nat) (best : Option (Nat × Nat)),
+    (∀ b, best = some b → b.1 ≤ acc) → ∀ j first len, (firstIndices lens s acc)[j]? = some (first, s + j) →
+    lens[j]? = some len → first ≤ idx → idx < first + len →
+    ((firstIndices lens s acc).foldl (srcStep idx) best).map (·.2) = some (s + j) := by
+  intro lens
+  induction lens with
+  | nil => intro s acc best _ j first len h; simp [firstIndices] at h
+  | cons l0 rest ih =>
+    intro s acc best hb j first len hf hl h1 h2
+    simp only [firstIndices, List.foldl_cons]
+    cases j with
+    | zero =>
+      simp only [firstIndices, List.getElem?_cons_zero, Option.some.injEq, Prod.mk.injEq] at hf
+      simp only [List.getElem?_cons_zero, Option.some.injEq] at hl
+      obtain ⟨rfl, _⟩ := hf
+      subst hl
+      have hstep : srcStep idx best (acc, s) = some (acc, s) := by
+        simp only [srcStep]
+        rw [if_pos h1]
+        cases best with
+        | none => rfl
+        | some b => simp only; rw [if_pos (hb b rfl)]
+      rw [hstep, fold_skip idx rest (s + 1) (acc + l0) _ (by omega)]
+      simp
+    | succ j' =>
+      simp only [firstIndices, List.getElem?_cons_succ] at hf hl
+      have e : s + (j' + 1) = s + 1 + j' := by omega
+      rw [e] at hf ⊢
+      -- keys of the remaining entries are ≥ acc + l0; `first` is one of them
+      have hfirst : acc + l0 ≤ first := by
+        clear ih hl h1 h2
+        have key : ∀ (lens : List Nat) (s acc j first s' : Nat), (firstIndices lens s acc)[j]? = some (first, s') →
+            acc ≤ first := by
+          intro lens
+          induction lens with
+          | nil => intro s acc j first s' h; simp [firstIndices] at h
+          | cons l1 r1 ih1 =>
+            intro s acc j first s' h
+            cases j with
+            | zero =>
+              simp only [firstIndices, List.getElem?_cons_zero, Option.some.injEq, Prod.mk.injEq] at h
+              omega
+            | succ j1 =>
+              simp only [firstIndices, List.getElem?_cons_succ] at h
+              have := ih1 _ _ _ _ _ h
+              omega
+        exact key _ _ _ _ _ _ hf
+      apply ih (s + 1) (acc + l0) _ _ j' first len hf hl h1 h2
+      intro b hb'
+      simp only [srcStep] at hb'
+      split at hb'
+      · cases best with
+        | none => simp only [Option.some.injEq] at hb'; subst hb'; simp only; omega
+        | some b0 =>
+          simp only at hb'
+          split at hb'
+          · simp only [Option.some.injEq] at hb'; subst hb'; simp only; omega
+          · simp only [Option.some.injEq] at hb'; subst hb'
+            have := hb b0 rfl; omega
+      · have := hb b hb'; omega
+
+/-- the interval of every source index: it exists, starts at or after `acc`, and ends within the total -/
+theorem firstIndices_get : ∀ (lens : List Nat) (s acc j len : Nat), lens[j]? = some len →
+    ∃ first, (firstIndices lens s acc)[j]? = some (first, s + j) ∧ acc ≤ first ∧ first + len ≤ acc + lens.sum := by
+  intro lens
+  induction lens with
+  | nil => intro s acc j len h; simp at h
+  | cons l0 rest ih =>
+    intro s acc j len h
+    cases j with
+    | zero =>
+      simp only [List.getElem?_cons_zero, Option.some.injEq] at h
+      subst h
+      exact ⟨acc, by simp [firstIndices], Nat.le_refl _, by simp only [List.sum_cons]; omega⟩
+    | succ j' =>
+      simp only [List.getElem?_cons_succ] at h
+      obtain ⟨first, h1, h2, h3⟩ := ih (s + 1) (acc + l0) j' len h
+      refine ⟨first, ?_, by omega, by simp only [List.sum_cons]; omega⟩
+      simp only [firstIndices, List.getElem?_cons_succ]
+      have e : s + (j' + 1) = s + 1 + j' := by omega
+      rw [e]; exact h1
+
+/-- every index below the total lies in the interval of some source index -/
+theorem interval_exists : ∀ (lens : List Nat) (s acc idx : Nat), acc ≤ idx → idx < acc + lens.sum →
+    ∃ j first len, (firstIndices lens s acc)[j]? = some (first, s + j) ∧ lens[j]? = some len ∧
+      first ≤ idx ∧ idx < first + len := by
+  intro lens
+  induction lens with
+  | nil => intro s acc idx h1 h2; simp at h2; omega
+  | cons l0 rest ih =>
+    intro s acc idx h1 h2
+    simp only [List.sum_cons] at h2
+    by_cases hlt : idx < acc + l0
+    · exact ⟨0, acc, l0, by simp [firstIndices], by simp, h1, hlt⟩
+    · obtain ⟨j, first, len, a, b, c, d⟩ := ih (s + 1) (acc + l0) idx (by omega) (by omega)
+      refine ⟨j + 1, first, len, ?_, by simpa using b, c, d⟩
+      simp only [firstIndices, List.getElem?_cons_succ]
+      have e : s + (j + 1) = s + 1 + j := by omega
+      rw [e]; exact a
 
 end QV.C25
